@@ -62,6 +62,10 @@ CHECKS = {
          "Every input sequence of up to 7 (quick) / 8 (thorough) identity-tagged entries over 4 ranks x 2 flags and every capacity 0..n+1 is run through the real Update::new and compared with the classical Second Chance queue under some tie order; identity, drop-count and no-panic are checked on each. Complete for the stated domain; larger n only through enumerated families.",
          "Trusted: the 20-line reference clock queue in harness/src/props/c08.rs; ranks limited to 4 values (ties abound) for the exhaustive part.",
          "DESIGN.md §4 C08"),
+ "C10": ("explicit enumeration of the trigger's reachable states and of short write sequences through the real write path, with maintenance observed in the intercepted call trace",
+         "Every capacity 0..40 (quick) / 0..200 (thorough) x every adversarial draw (boundaries of every multiple of the per-event decrement, minimum, maximum) from the uninitialised and the just-fired countdown: maintenance (an opendir of the cache directory) must be observed within max(1, k/3) writes and before the write's own publication; all write sequences of length <= 5 (7) over {set, put} x {fresh, oldest, newest key} for capacities 0..6 and worst-case families up to the largest capacity: file count <= k + max(1, k/3) after every write; huge capacities up to usize::MAX.",
+         "The random source is scripted through the cfg(kismet_verif) hook in trigger::regenerate. Single writer.",
+         "DESIGN.md §4 C10"),
  "C12": ("exhaustive enumeration of a boundary-hash grid x shard counts against an independent reimplementation of the placement function",
          "For every shard count 0..70 (0..400 thorough) and selected large ones, every primary hash whose mixed image sits on either side of a shard boundary and every secondary hash landing on the same/next/previous shard: the real library's probe paths (intercepted open calls), storage location after put through a fresh handle, cross-handle lookup, secondary-shard get/touch/set and the type-erased front-ends are compared with a reference written from the documentation (own SHA-256, u128 arithmetic).",
          "The 2^128 hash pairs are covered by a structured grid, not exhausted; trusted: harness SHA-256 (known-answer self-test).",
